@@ -31,6 +31,49 @@ def names_in_expr(e: ast.AST) -> set[str]:
     return {x.id for x in ast.walk(e) if isinstance(x, ast.Name)}
 
 
+def rule_i(chk: Check, eng: Engine) -> None:
+    """R04-i.  The Earley table has one column per *bit*; scan_bit consumes one column, scan_bytes / scan_regex read whole bytes from
+    word[w:] where w = column // 8.  At a column with column % 8 != 0 the byte word[w] is already partly consumed by bit terminals, so a
+    byte scanner would match it a second time.  Every call of a byte scanner must therefore sit behind an alignment test of the column
+    it is given."""
+    from ..core import parents_map, ancestors
+    ip = eng.cls(f"{PMOD}.iterative_parser", "IterativeParser")
+    n = 0
+    for m in ip.methods.values():
+        pm = None
+        for c in walk_local(m.node):
+            if not (isinstance(c, ast.Call) and isinstance(c.func, ast.Attribute) and self_attr(c.func) in ("scan_bytes", "scan_regex")):
+                continue
+            n += 1
+            if pm is None:
+                pm = parents_map(m.node)
+            callee = eng.method(ip, c.func.attr)
+            ps = [p for p in callee.params() if p != "self"]
+            kidx = ps.index("k") if "k" in ps else None
+            col = c.args[kidx] if kidx is not None and len(c.args) > kidx else get_kwarg(c, "k")
+            if col is None:
+                raise AnalysisError(f"{m.fq}: cannot find the column argument of {c.func.attr}")
+            guarded = False
+            child = c
+            for a in ancestors(pm, c):
+                if isinstance(a, ast.If):
+                    t = a.test
+                    in_body = any(child is b or any(child is x for x in ast.walk(b)) for b in a.body)
+                    if isinstance(t, ast.Compare) and len(t.ops) == 1 and isinstance(t.left, ast.BinOp) and isinstance(t.left.op, ast.Mod) and norm(t.left.left) == norm(col) \
+                            and isinstance(t.left.right, ast.Constant) and t.left.right.value == 8 and isinstance(t.comparators[0], ast.Constant) and t.comparators[0].value == 0:
+                        if (isinstance(t.ops[0], ast.Eq) and in_body) or (isinstance(t.ops[0], ast.NotEq) and not in_body):
+                            guarded = True
+                child = a
+            if guarded:
+                chk.ok("R04-i", m.fq, c.lineno, f"`self.{c.func.attr}(...)` runs only where `{norm(col)} % 8 == 0`")
+            else:
+                chk.bad("R04-i", eng.relfile(m), c.lineno, m.fq, f"`self.{c.func.attr}(...)` can run at a column `{norm(col)}` that is not a multiple of 8",
+                        "after a bit terminal the byte scanner matches the partly consumed byte again: inputs outside the language are accepted with trees that do not spell the input",
+                        keyparts=f"unaligned|{c.func.attr}")
+    if n < 2:
+        raise AnalysisError(f"only {n} byte-scanner call sites found")
+
+
 def rule_h(chk: Check, eng: Engine) -> None:
     """R04-h.  GrammarProcessor names the helper rules of *, +, ?, {..}, alternatives and concatenations `<__kind:N_PREFIX>` with N counted per
     spec.  Grammar.update merges the rules of all specs by name, so two specs with the same PREFIX overwrite each other's helper rules (the
@@ -100,6 +143,8 @@ def run(chk: Check, eng: Engine) -> None:
     _memo = memo_attribute(eng, _parser)
     _g, _s = memo_helpers(_parser, _memo)
     _key_rule(chk, eng, _parser, _memo, _g, _s, rule="R04-g", only={"mode", "start", "word"})
+    chk.rule("R04-i", "byte and regex terminals are scanned only at byte-aligned columns of the bit-indexed parse table", floor=2)
+    rule_i(chk, eng)
     chk.rule("R04-h", "ids of implicit grammar nodes are unique across the specs merged into one grammar: per-spec counters are qualified by a prefix "
              "that is derived from the file name, and the spec loop never gives two specs the same name", floor=4)
     rule_h(chk, eng)
@@ -433,6 +478,8 @@ _IP = "src/fandango/language/grammar/parser/iterative_parser.py"
 _R = "src/fandango/language/grammar/nodes/repetition.py"
 _CMP = "src/fandango/constraints/comparison.py"
 MUTANTS = [
+    M("byte-scan-alignment-guard-removed", _IP, "                        elif curr_table_idx % 8 != 0:\n                            # Bytes and regexes are scanned at byte boundaries only: inside a\n                            # partly consumed byte there is no whole byte to match.\n                            match = False\n", "", "R04-i"),
+    M("byte-scan-unaligned", _IP, "                        elif curr_table_idx % 8 != 0:\n", "                        elif curr_table_idx % 8 != 0 and False:\n", "R04-i"),
     M("string-specs-share-name", "src/fandango/language/parse/parse.py", "            name = \"<string>\" if string_specs == 1 else f\"<string-{string_specs}>\"\n", "            name = \"<string>\"\n", "R04-h"),
     M("id-prefix-constant", "src/fandango/language/parse/spec.py", "            id_prefix=\"{0:x}\".format(abs(hash(filename))),\n", "            id_prefix=\"{0:x}\".format(abs(hash(\"fandango\"))),\n", "R04-h"),
     M("star-id-without-prefix", "src/fandango/language/parse/convert.py", "            f\"{NodeType.STAR}:{nid}_{self.id_prefix}\",\n", "            f\"{NodeType.STAR}:{nid}\",\n", "R04-h"),
